@@ -749,6 +749,57 @@ pub enum ZS3 {
     B(ZL7),
 }
 
+// ---- family ZG: generic shapes, manifest-free (second manifest-free range) -------------------
+
+#[derive(TS)]
+#[ts(export_to = p(96), rename = n(96))]
+pub struct ZG0<T> {
+    pub a: T,
+    pub b: Option<T>,
+    #[ts(inline)]
+    pub c: ZW0,
+    pub d: Vec<ZL1>,
+}
+
+#[derive(TS)]
+#[ts(export_to = p(97), rename = n(97))]
+pub struct ZG1<T = ZL4, U = ZG0<ZL5>> {
+    pub t: T,
+    pub u: U,
+    pub k: ZL6,
+}
+
+#[derive(TS)]
+#[ts(export_to = p(98), rename = n(98))]
+pub struct ZG2<'a, T, const N: usize> {
+    pub r: &'a T,
+    pub arr: [T; N],
+    pub fixed: [ZL2; 2],
+}
+
+#[derive(TS)]
+#[ts(export_to = p(99), rename = n(99), concrete(T = ZL0))]
+pub struct ZG3<T> {
+    pub x: T,
+    pub y: ZL1,
+    pub z: Vec<Option<T>>,
+}
+
+#[derive(TS)]
+#[ts(export_to = p(100), rename = n(100))]
+pub struct ZG4 {
+    pub a: ZG0<ZL2>,
+    pub b: ZG0<ZG0<ZL3>>,
+    pub c: ZG1,
+    pub d: ZG1<ZL7, ZL0>,
+    #[ts(inline)]
+    pub e: ZG0<ZV0>,
+    #[ts(flatten)]
+    pub f: ZG1<ZV1>,
+    pub g: ZG2<'static, ZV2, 3>,
+    pub h: ZG3<ZL0>,
+}
+
 // ---- family L: literal attributes, as in ordinary user code -------------------------------
 
 #[derive(TS)]
@@ -781,7 +832,7 @@ pub struct L3 {
 pub struct L4(pub String);
 
 /// Number of definitions that read the table (`p(i)` / `n(i)`).
-pub const DER_DEFS: usize = 96;
+pub const DER_DEFS: usize = 101;
 
 #[derive(Clone, Copy, Debug)]
 pub enum Place {
@@ -923,7 +974,19 @@ pub const AUTO_TO: usize = 109;
 pub const VEC_A0: usize = 109;
 pub const OPT_USEG: usize = 110;
 pub const BOX_C0: usize = 111;
-pub const DER_HANDLES: usize = 112;
+/// second manifest-free range
+pub const AUTO2_FROM: usize = 112;
+pub const H_ZG0_DUMMY_: usize = 112;
+pub const H_ZG0_ZL2_: usize = 113;
+pub const H_ZG0_ZG0_ZL3__: usize = 114;
+pub const H_ZG1_DUMMY_DUMMY_: usize = 115;
+pub const H_ZG1: usize = 116;
+pub const H_ZG1_ZL7_ZL0_: usize = 117;
+pub const H_ZG2_DUMMY_: usize = 118;
+pub const H_ZG2_ZV2_: usize = 119;
+pub const H_ZG3: usize = 120;
+pub const H_ZG4: usize = 121;
+pub const DER_HANDLES: usize = 122;
 
 use Place::{Lit, RenameOnly, Table as Tb};
 
@@ -1079,6 +1142,18 @@ pub const MANIFEST: [DerInfo; DER_HANDLES] = [
     DerInfo { label: "Vec<A0>", place: Place::NotExportable, import_refs: &[], reach_refs: &[A0_] },
     DerInfo { label: "Option<UseG>", place: Place::NotExportable, import_refs: &[], reach_refs: &[USEG] },
     DerInfo { label: "Box<C0>", place: Place::NotExportable, import_refs: &[], reach_refs: &[C0_] },
+    // family ZG (manifest-free, see AUTO2_FROM; the erased instantiation of each definition comes
+    // first so that a lookup by name finds it)
+    DerInfo { label: "ZG0<Dummy>", place: Tb(96), import_refs: &[], reach_refs: &[] },
+    DerInfo { label: "ZG0<ZL2>", place: Tb(96), import_refs: &[], reach_refs: &[] },
+    DerInfo { label: "ZG0<ZG0<ZL3>>", place: Tb(96), import_refs: &[], reach_refs: &[] },
+    DerInfo { label: "ZG1<Dummy,Dummy>", place: Tb(97), import_refs: &[], reach_refs: &[] },
+    DerInfo { label: "ZG1", place: Tb(97), import_refs: &[], reach_refs: &[] },
+    DerInfo { label: "ZG1<ZL7,ZL0>", place: Tb(97), import_refs: &[], reach_refs: &[] },
+    DerInfo { label: "ZG2<Dummy>", place: Tb(98), import_refs: &[], reach_refs: &[] },
+    DerInfo { label: "ZG2<ZV2>", place: Tb(98), import_refs: &[], reach_refs: &[] },
+    DerInfo { label: "ZG3", place: Tb(99), import_refs: &[], reach_refs: &[] },
+    DerInfo { label: "ZG4", place: Tb(100), import_refs: &[], reach_refs: &[] },
 ];
 
 pub fn der_handle(h: usize) -> Handle {
@@ -1196,6 +1271,16 @@ pub fn der_handle(h: usize) -> Handle {
         VEC_A0 => handle::<Vec<A0>>(l),
         OPT_USEG => handle::<Option<UseG>>(l),
         BOX_C0 => handle::<Box<C0>>(l),
+        H_ZG0_DUMMY_ => handle::<ZG0<ts_rs::Dummy>>(l),
+        H_ZG0_ZL2_ => handle::<ZG0<ZL2>>(l),
+        H_ZG0_ZG0_ZL3__ => handle::<ZG0<ZG0<ZL3>>>(l),
+        H_ZG1_DUMMY_DUMMY_ => handle::<ZG1<ts_rs::Dummy, ts_rs::Dummy>>(l),
+        H_ZG1 => handle::<ZG1>(l),
+        H_ZG1_ZL7_ZL0_ => handle::<ZG1<ZL7, ZL0>>(l),
+        H_ZG2_DUMMY_ => handle::<ZG2<'static, ts_rs::Dummy, 3>>(l),
+        H_ZG2_ZV2_ => handle::<ZG2<'static, ZV2, 3>>(l),
+        H_ZG3 => handle::<ZG3<ZL0>>(l),
+        H_ZG4 => handle::<ZG4>(l),
         _ => panic!("no such derived handle {h}"),
     }
 }
